@@ -53,8 +53,14 @@ touch "$DIR"
 case "$PROP" in
   build) exit 0;;
   litmus)
-    if [ $RACE = 1 ]; then GORACE="log_path=$DIR/racelog halt_on_error=0" "$BIN" litmus -v; rc=$?; rm -f "$DIR"/racelog.*; exit $rc; fi
+    if [ $RACE = 1 ]; then GORACE="log_path=$DIR/racelog halt_on_error=0 exitcode=0" "$BIN" litmus -v; rc=$?; rm -f "$DIR"/racelog.*; exit $rc; fi
     exec "$BIN" litmus -v;;
   replay) exec "$BIN" replay "$2";;
-  *) VERIF_DIR="$VERIF" exec "$BIN" check "$PROP" --tier "$TIER";;
+  *)
+    if [ $RACE = 1 ]; then
+      GORACE="log_path=$DIR/racelog-parent halt_on_error=0 exitcode=0" VERIF_DIR="$VERIF" "$BIN" check "$PROP" --tier "$TIER"; rc=$?
+      rm -f "$DIR"/racelog-parent.*
+      exit $rc
+    fi
+    VERIF_DIR="$VERIF" exec "$BIN" check "$PROP" --tier "$TIER";;
 esac
